@@ -182,6 +182,21 @@ func build() (*built, error) {
 		return nil, err
 	}
 	gb := goBin()
+	env := goEnv()
+	// The runtime's select.go is overlaid (seeded poll order); the go command refuses overlays of
+	// files beneath GOMODCACHE, where the cached toolchain lives, so the toolchain is addressed
+	// through a stable alias (a symlink: the std build cache stays valid across invocations).
+	if root := filepath.Dir(filepath.Dir(gb)); gb != "go" {
+		alias := filepath.Join(verifDir, ".goroot")
+		if cur, err := os.Readlink(alias); err != nil || cur != root {
+			os.Remove(alias)
+			if err := os.Symlink(root, alias); err != nil {
+				return nil, fmt.Errorf("cannot create GOROOT alias: %v", err)
+			}
+		}
+		gb = filepath.Join(alias, "bin", "go")
+		env = append(env, "GOROOT="+alias)
+	}
 	vr := filepath.Join(verifDir, "bin", "vrewrite")
 	if _, err := os.Stat(vr); err != nil {
 		return nil, fmt.Errorf("vrewrite not built (run setup_cmd): %v", err)
@@ -191,7 +206,7 @@ func build() (*built, error) {
 		return nil, fmt.Errorf("porcupine v1.3.0 not found in module cache")
 	}
 	cmd := exec.Command(vr, "-repo", repoDir, "-out", dir, "-go", gb, "-harness", filepath.Join(verifDir, "sim"), "-porcupine", pd)
-	cmd.Env = goEnv()
+	cmd.Env = env
 	var out bytes.Buffer
 	cmd.Stdout, cmd.Stderr = &out, &out
 	if err := cmd.Run(); err != nil {
@@ -200,7 +215,7 @@ func build() (*built, error) {
 	bin := filepath.Join(dir, "sim.test")
 	cmd = exec.Command(gb, "test", "-c", "-tags", "verif", "-overlay", filepath.Join(dir, "overlay.json"), "-vet=off", "-o", bin, ".")
 	cmd.Dir = repoDir
-	cmd.Env = goEnv()
+	cmd.Env = env
 	out.Reset()
 	cmd.Stdout, cmd.Stderr = &out, &out
 	if err := cmd.Run(); err != nil {
